@@ -83,6 +83,9 @@ func (ev *Eval) intExpr(e *Expr) *Term {
 }
 
 func (ev *Eval) eval(e *Expr) *Value {
+	if ev.pkg == nil && ev.v != nil && ev.v.top != nil {
+		ev.pkg = fnPkg(ev.v.top)
+	}
 	switch e.Op {
 	case "paren":
 		return ev.eval(e.Args[0])
@@ -306,6 +309,9 @@ func (ev *Eval) quant(e *Expr) *Value {
 
 func (ev *Eval) resolveType(name string) types.Type {
 	name = strings.TrimSpace(name)
+	if ev.pkg == nil && ev.v != nil && ev.v.top != nil {
+		ev.pkg = fnPkg(ev.v.top)
+	}
 	switch name {
 	case "int", "int64", "int32", "uint", "uint64", "uint32", "uint8", "byte", "uint16", "int16", "int8":
 		return specInt
@@ -318,6 +324,26 @@ func (ev *Eval) resolveType(name string) types.Type {
 	}
 	if strings.HasPrefix(name, "*") {
 		return types.NewPointer(ev.resolveType(name[1:]))
+	}
+	if strings.HasPrefix(name, "map[") {
+		depth := 0
+		for i := 3; i < len(name); i++ {
+			switch name[i] {
+			case '[':
+				depth++
+			case ']':
+				depth--
+				if depth == 0 {
+					return types.NewMap(ev.resolveGoType(name[4:i]), ev.resolveGoType(name[i+1:]))
+				}
+			}
+		}
+	}
+	if name == "any" {
+		return types.NewInterfaceType(nil, nil)
+	}
+	if name == "error" {
+		return types.Universe.Lookup("error").Type()
 	}
 	if strings.HasPrefix(name, "[]") {
 		return types.NewSlice(ev.resolveType(name[2:]))
@@ -342,6 +368,17 @@ func (ev *Eval) resolveType(name string) types.Type {
 	}
 	ev.fail("unknown type %q", name)
 	return nil
+}
+
+// resolveGoType is resolveType but keeps Go integer types (used inside composite ghost types).
+func (ev *Eval) resolveGoType(name string) types.Type {
+	name = strings.TrimSpace(name)
+	if o := types.Universe.Lookup(name); o != nil {
+		if tn, ok := o.(*types.TypeName); ok {
+			return tn.Type()
+		}
+	}
+	return ev.resolveType(name)
 }
 
 func (ev *Eval) ident(name string) *Value {
@@ -681,6 +718,19 @@ func (ev *Eval) call(e *Expr) *Value {
 		// ref(p): the integer address of a pointer value
 		x := ev.eval(e.Args[0])
 		return scalar(specInt, x.L[0])
+	case "implements":
+		x := ev.eval(e.Args[0])
+		if !isIface(x.T) || e.Args[1].Op != "str" {
+			ev.fail("implements(x, \"pkg.Iface\")")
+		}
+		return scalar(specBool, implementsTerm(x.L[0], ev.resolveType(e.Args[1].Name)))
+	case "asString":
+		// the string held by an interface value (any) whose dynamic type is string
+		x := ev.eval(e.Args[0])
+		if !isIface(x.T) {
+			ev.fail("asString needs an interface value")
+		}
+		return ev.v.unbox(ev.state(), x, types.Typ[types.String])
 	case "isnil":
 		x := ev.eval(e.Args[0])
 		return scalar(specBool, Eq(x.L[0], Int(0)))
